@@ -130,6 +130,63 @@ def rule_return_ignores_untracked(ctx: Ctx, repo: Repo) -> None:
                   construct=f"untracked {p.kind}@{p.opname}: {[e[0] for e in effs]}")
 
 
+def rule_sampled_trace_is_complete(ctx: Ctx, repo: Repo) -> None:
+    """R-C18.7: sampling decides whether a CALL is traced, nothing else: at every exit point of a frame whose call was
+    sampled, handle_return does exactly what it does without sampling - for every sample rate, whatever a draw would give,
+    whether or not the trace already holds a yield type - and never consults the random generator."""
+    from .c02 import _trace
+    ret_points, _ = corpus_points()
+    fi = repo.method(repo.cls(M, "CallTracer"), "handle_return")
+    ctx.functions.add(fi.fq)
+    ps = fi.positional_params()
+    n = 0
+    for p in ret_points:
+        for yielded in (False, True):
+            base = None
+            for rate, draw in ((None, None), (1, 0), (3, 0), (3, 1), (3, 2), (1000, 999)):
+                sc = TracerScenario(repo, "handle_return", {"sample_rate": K(rate)}, trace_in_table=_trace(yielded), draw=K(draw) if draw is not None else None)
+                outs = sc.run({ps[1]: frame_value(p), ps[2]: S("arg")})
+                if len(outs) != 1:
+                    raise AnalysisError(f"handle_return: {len(outs)} outcomes at {p.label()} with sample rate {rate}")
+                effs = [e for e in relevant(outs[0].effects)]
+                draws = [e for e in effs if e[0] in ("draw", "rng-state")]
+                n += 1
+                ctx.check(not draws, "R-C18.7", fi.fq, "recording what a sampled call returns or yields never consults the random generator",
+                          construct=f"{p.label()}, sample rate {rate}: {[e[1] for e in draws]}")
+                key = [repr(e) for e in effs if e[0] not in ("draw", "rng-state")]
+                if base is None:
+                    base = key
+                else:
+                    ctx.check(key == base, "R-C18.7", fi.fq,
+                              "every exit event of a sampled call is recorded exactly as it is without sampling (every yield contributes to the yield type, the return type is set, the trace is logged)",
+                              construct=f"{p.label()}, {'a yield type already recorded' if yielded else 'first event of the trace'}, sample rate {rate} and a draw of {draw}: {[e[0] for e in effs]} instead of {[k.split(',')[0] for k in base]}")
+    ctx.floor("R-C18.7", "exit point x trace state x sampling scenarios of handle_return", n, 200)
+
+
+def rule_generator_seed(ctx: Ctx, repo: Repo) -> None:
+    """R-C18.8: in the shipped configuration every tracing block draws its sampling decisions from a generator seeded from the
+    operating system's entropy.  `with monkeytype.trace(DefaultConfig()): ...` is interpreted twice in a row with real
+    configuration, logger and tracer objects: each block builds a new tracer, hence a new generator; were every one of
+    them built from the same seed (a constant default handed down from the configuration), every block would make the
+    same sequence of decisions - the k-th call of every block always or never traced - which is not "about one in N"."""
+    from .blocks_model import ConfiguredBlock
+    tr = repo.fn("monkeytype", "trace")
+    ctx.functions.add(tr.fq)
+    sc = ConfiguredBlock(repo, "with trace(CONFIG):\n    EVENTS('first block')\nwith trace(CONFIG):\n    EVENTS('second block')\n")
+    o = sc.run()
+    ctx.check(o.term is None or o.term[0] == "return", "R-C18.8", tr.fq, "two tracing blocks of the default configuration run to their end", construct=f"{o.term}")
+    ctx.floor("R-C18.8", "generators built by the tracers of two successive blocks", len(sc.rng_seeds), 2)
+    for i, (ctor, pos, kws) in enumerate(sc.rng_seeds):
+        given = [a for a in pos] + [v for _, v in kws]
+        unseeded = ctor.endswith("SystemRandom") or not given or all(a == K(None) for a in given)
+        ctx.check(unseeded, "R-C18.8", f"{M}.CallTracer.__init__",
+                  "the generator a tracer samples with is seeded from the operating system (no seed, or None) in the shipped configuration",
+                  construct=f"block {i + 1}: {ctor}({', '.join(str(getattr(a, 'v', a)) for a in given)}) - the same seed for every tracing block")
+    # and the blocks themselves: each one hands its own trace to the store, once
+    ctx.check(len(sc.stored) == 2 and all(isinstance(b, R) and b.kind == "list" and len(b.fields["items"]) == 1 for b in sc.stored), "R-C18.8", tr.fq,
+              "with sampling unset every call of a block reaches the store exactly once, when the block ends", construct=f"{[str(b)[:80] for b in sc.stored]}")
+
+
 def rule_forwarding(ctx: Ctx, repo: Repo) -> None:
     ci = repo.cls(M, "CallTracer")
     ok, why = attr_is_param(repo, ci, "sample_rate", "sample_rate")
@@ -162,5 +219,7 @@ def run(ctx: Ctx, repo: Repo, tier: str) -> None:
     ctx.trust("random.randrange(n) is uniform over range(n)")
     ctx.attempt(rule_gate, ctx, repo)
     ctx.attempt(rule_return_ignores_untracked, ctx, repo)
+    ctx.attempt(rule_sampled_trace_is_complete, ctx, repo)
+    ctx.attempt(rule_generator_seed, ctx, repo)
     ctx.attempt(rule_forwarding, ctx, repo)
     ctx.settle()
